@@ -197,11 +197,37 @@ func main() {
 	w := NewWorld(r.Vacuity)
 	defer w.Env.Close()
 	cfg := config{Denoms: Denoms, InitialFunds: InitialFunds, Stores: *storesFlag}
+	check := w.Check
+	diff := map[string]int64{}
+	if *storesFlag == "diff" {
+		// development aid: explore with all stores hashed and name the stores in which two states differ
+		// although the restricted hash (and the ledger) merges them
+		stores = nil
+		first := map[string]map[string][32]byte{}
+		check = func(ctx sdk.Context, l *Ledger, fail func(a, s, d string)) {
+			w.Check(ctx, l, fail)
+			rh := core.StateHash(w.App, ctx, restricted)
+			k := string(rh[:]) + string(l.Key())
+			vec := map[string][32]byte{}
+			for _, n := range core.StoreNames(w.App) {
+				vec[n] = core.StateHash(w.App, ctx, []string{n})
+			}
+			if f0, ok := first[k]; ok {
+				for n, h := range vec {
+					if f0[n] != h {
+						diff[n]++
+					}
+				}
+			} else {
+				first[k] = vec
+			}
+		}
+	}
 	sc := &core.Scenario[Op, *Ledger]{
 		App: w.App, Stores: stores, Config: cfg,
 		Enabled:   w.Enabled(&pl.Alpha),
 		Apply:     w.Apply,
-		Check:     w.Check,
+		Check:     check,
 		LedgerKey: func(l *Ledger) []byte { return l.Key() },
 	}
 	allSeen := core.NewSeen()
@@ -230,6 +256,9 @@ func main() {
 	r.Extra["alphabet"] = string(bz)
 	r.Extra["seeds"] = seedNames
 	r.Extra["hashed_stores"] = *storesFlag
+	if len(diff) > 0 {
+		r.Extra["stores_differing_within_restricted_classes"] = diff
+	}
 	r.Extra["max_queries_per_state"] = w.maxQueries
 	r.Extra["sum_queries_compared"] = w.sumQueries
 	r.Outcomes = int64(len(r.Rejected) + 1)
